@@ -352,7 +352,8 @@ def report_found(rep, found):
     for sig, lst in sorted(found.items()):
         r, v = min(lst, key=lambda rv: rv[0].get("size", 10 ** 9))
         items.append((sig, r, v, len(lst)))
-    mins = pmap("c08_min", [(r["case"], sig) for sig, r, v, n in items], chunksize=1) if items else []
+    # 'spurious-cycle-report' rests on the input being acyclic by construction: shrinking the text would void that
+    mins = pmap("c08_min", [(r["case"], sig) if sig != "spurious-cycle-report" else (r["case"], "<keep>") for sig, r, v, n in items], chunksize=1) if items else []
     for (sig, r, v, n), mres in zip(items, mins):
         if isinstance(mres, dict):      # harness error inside the minimiser: keep the unminimised witness
             mcase, trials = r["case"], -1
